@@ -1167,6 +1167,16 @@ func genC09(w *bufio.Writer, g *gen, n int) {
 		}
 		fmt.Fprintln(w, c.encode())
 	}
+	// the user's own `clean` task run through `--clean` (± --quiet, --json): a failing command in it — or in a task it
+	// depends on — fails the invocation like any other
+	for i := 0; i < n/6+8; i++ {
+		fail := []int{40, 60, 100}[i%3]
+		c := g.newCase(specOpts{maxTasks: 4, minCmds: 1, maxCmds: 3, failPct: fail, wantDefault: 1, cleanLate: true, maxVars: 1}, wValid, g.maybeLinked())
+		cwd := cwds[g.rng.Intn(len(cwds))]
+		cf := [][]string{{"clean"}, {"clean", "quiet"}, {"clean", "json"}, {"c"}, {"clean", "force"}}
+		c.steps = []step{{cwd: cwd, flags: cf[i%len(cf)]}, {cwd: cwd, flags: cf[(i+1)%len(cf)], args: g.argsFor(c.tasks)}, {cwd: cwd, args: []string{"clean"}}}
+		fmt.Fprintln(w, c.encode())
+	}
 }
 
 // C17 at the level of the binary: where discovery looks — every working directory of the sandbox x every $HOME inside it
